@@ -53,6 +53,8 @@ type KnownFinding struct {
 	Status     string // open | fixed
 	Property   string
 	Obligation string
+	Input      string // regexp over the failing input reported by a bounded stand-in
+	Sites      int    // number of call/return sites at which the named obligation is known to fail (0: any)
 	Text       string
 }
 
@@ -84,6 +86,12 @@ func loadKnownFindings(path string) []KnownFinding {
 			}
 			if strings.HasPrefix(f, "obligation=") {
 				k.Obligation = strings.TrimPrefix(f, "obligation=")
+			}
+			if strings.HasPrefix(f, "input=") {
+				k.Input = strings.TrimPrefix(f, "input=")
+			}
+			if strings.HasPrefix(f, "sites=") {
+				k.Sites, _ = strconv.Atoi(strings.TrimPrefix(f, "sites="))
 			}
 		}
 		k.Text = line
@@ -253,6 +261,8 @@ func cmdCheck(args []string) int {
 	var violations []OblResult
 	var knownHits []string
 	seen := map[string]bool{}
+	knownFail := map[int]int{}
+	sort.SliceStable(res, func(i, j int) bool { return res[i].O.Name < res[j].O.Name })
 	for _, r := range res {
 		solverS += r.R.Seconds
 		seen[r.O.Name] = true
@@ -272,10 +282,17 @@ func cmdCheck(args []string) int {
 			continue
 		}
 		isKnown := false
-		for _, k := range known {
-			if k.Status == "open" && (k.Obligation == r.O.Name || k.Obligation == stripOrdinal(r.O.Name)) {
+		for ki, k := range known {
+			if k.Status == "open" && k.Obligation != "" && (k.Obligation == r.O.Name || k.Obligation == stripOrdinal(r.O.Name)) {
 				isKnown = true
 				if !r.OK {
+					knownFail[ki]++
+					if k.Sites > 0 && knownFail[ki] > k.Sites {
+						// the clause fails at more sites than the finding records:
+						// the extra site is a different violation
+						isKnown = false
+						break
+					}
 					line := fmt.Sprintf("KNOWN-FINDING: %s", k.Text)
 					dup := false
 					for _, h := range knownHits {
@@ -290,6 +307,10 @@ func cmdCheck(args []string) int {
 			}
 		}
 		if isKnown {
+			continue
+		}
+		if extraKnownSite(known, knownFail, r) {
+			violations = append(violations, r)
 			continue
 		}
 		switch {
@@ -355,7 +376,10 @@ func cmdCheck(args []string) int {
 		exit = 1
 	}
 	// bounded stand-ins (never counted as proved)
-	standins, sfail := runStandins(*repo, *verif, prop, *tier, seed)
+	standins, sfail, shits := runStandins(*repo, *verif, prop, *tier, seed, known)
+	for _, k := range shits {
+		fmt.Printf("KNOWN-FINDING: %s\n", k.Text)
+	}
 	for i, f := range sfail {
 		path := filepath.Join(*verif, "replays", fmt.Sprintf("%s-standin-%d.json", prop, i))
 		data, _ := json.MarshalIndent(map[string]interface{}{"property": prop, "kind": "bounded stand-in", "output": f}, "", " ")
@@ -405,6 +429,20 @@ func cmdCheck(args []string) int {
 }
 
 // stripOrdinal removes a trailing [n] (return-site / occurrence ordinal) from an obligation name.
+// extraKnownSite: a failing obligation under a known-finding name beyond the
+// recorded number of sites.
+func extraKnownSite(known []KnownFinding, knownFail map[int]int, r OblResult) bool {
+	if r.OK {
+		return false
+	}
+	for ki, k := range known {
+		if k.Status == "open" && k.Obligation != "" && (k.Obligation == r.O.Name || k.Obligation == stripOrdinal(r.O.Name)) && k.Sites > 0 && knownFail[ki] > k.Sites {
+			return true
+		}
+	}
+	return false
+}
+
 func stripOrdinal(n string) string {
 	if strings.HasSuffix(n, "]") {
 		if i := strings.LastIndex(n, "["); i > 0 {
